@@ -188,6 +188,11 @@ class W:
             t = t.f['_vec']
         return t
 
+    def _w(self, t):
+        if self._env is not None:
+            return self._env.wrap(t)
+        return t if (z3.is_expr(t) or isinstance(t, (int, bool)) or t is None) else W(None, t)
+
     def __getattr__(self, name):
         t = self._t
         if name == 'len':
@@ -202,7 +207,7 @@ class W:
             return self._env.wrap(self._env.read(t.path))
         if isinstance(t, SVal):
             if name in t.f:
-                return self._env.wrap(t.f[name])
+                return self._w(t.f[name])
         raise AttributeError('spec: no field %s in %r' % (name, t))
 
     def __getitem__(self, i):
@@ -211,10 +216,10 @@ class W:
         t = self._t
         if isinstance(t, PtrVal):
             v = self._env.read(t.path)
-            return self._env.wrap(select(v.data, t.off + i))
+            return self._w(select(v.data, t.off + i))
         v = self._vec()
         if isinstance(v, VecVal):
-            return self._env.wrap(select(v.data, i))
+            return self._w(select(v.data, i))
         raise TypeError('spec: cannot index %r' % (t,))
 
     # complex field arithmetic (textbook formulas, the oracle for cmplx_t's operators)
